@@ -178,7 +178,7 @@ def R_trace(toks):
 
 def R_subst(toks, arg):
     """generic declared substitution `from=>to` on token sequences (used by named rules below)."""
-    frm, to = arg.split("=>")
+    frm, to = arg.split("==>>") if "==>>" in arg else arg.split("=>")     # `==>>` separates when the texts contain `=>` themselves
     frm = frm.replace("\u2e34", ","); to = to.replace("\u2e34", ",")     # a comma inside a substitution is written U+2E34 in the directive (commas separate rewrites)
     f = [t.text for t in tokenize(frm)[0]]
     out = []; n = 0; i = 0
